@@ -61,6 +61,76 @@ CHECKS = {
    design_ref="DESIGN.md section 4 C05",
    technique="Rocq proof: ownership invariant over all schedules; go/ast source facts; deterministic-schedule and -race stress runs (testing)",
    note="data races between yield points, the Go memory model and runtime aborts cannot be exhibited by any Gallina model; caches/limiter treated as atomic objects (C13 lock theorem); the hourly metadata refresh goroutine is not simulated; " + COMMON_NOTE),
+ "C01": dict(
+   text="For every request, instance state satisfying the cache invariant, randomness and provider answer, the response of the model's serve satisfies the gate monitor (Properties/C01.v): a request outside the excluded prefixes, callback and logout paths is forwarded only if it carries cookies sealed under the deployment key holding an authenticated flag and an ID token accepted at that instant, or its stored refresh token has just been exchanged for an accepted token; every other request gets a redirect to the discovered authorization endpoint or a 4xx/5xx and is not forwarded; excluded prefixes pass unchanged; an authenticated session cookie is only ever issued by a successful callback or refresh and stores the token verified at that moment. Correspondence: ~150 world histories per run (jars: none, junk, foreign key, stolen, merged, aged, every token state; methods, Accept/Origin variants, excluded-prefix look-alikes) replayed step by step on the model; the monitor is applied to the implementation's responses.",
+   design_ref="DESIGN.md section 4 C01",
+   technique='Rocq proof: per-step theorem by case analysis over the ladder + instance invariant preserved by every step; in-Coq differential correspondence on world histories',
+   note="symbolic cookies (HMAC/AES idealised), token verification facts are inputs (oracle cross-checked in C02), provider answers and randomness are inputs of a step; " + COMMON_NOTE),
+ "C03": dict(
+   text="Step theorem (C03_binding_step): a callback establishes a session only with state equal to the state sealed in the carried main cookie, token nonce equal to the carried nonce and the carried PKCE verifier presented at the token endpoint, and consumes all three; without a pending login the token endpoint is not contacted. C03_initiation: every initiation stores exactly the drawn state/nonce/verifier and shows them (and the S256 challenge's preimage) in the redirect. History monitor (most recent initiation of the same browser, replayed callback creates no session and no provider call, freshness) is applied to the implementation on every run; its model-level theorem is C03_history when present in Properties/C03.v.",
+   design_ref="DESIGN.md section 4 C03",
+   technique='Rocq proof: per-step theorems over serve; history monitor; in-Coq differential correspondence on multi-browser login histories against a provider that enforces single-use codes, redirect_uri and S256',
+   note="symbolic cookies (HMAC/AES idealised), token verification facts are inputs (oracle cross-checked in C02), provider answers and randomness are inputs of a step; " + COMMON_NOTE),
+ "C04": dict(
+   text='C04_stateless/C04_steady (Properties/C04.v): for an honest browser, after a login or refresh stored token t, every later gated request served by ANY instance state (fresh, other instance) while t is more than the grace period from expiry is forwarded with no provider call. Correspondence: login through the real flow, 1-13 requests with instance replacement at every position including between initiation and callback, tokens with/without jti, nbf, 0.3-30 kB, refresh to a token of another size.',
+   design_ref="DESIGN.md section 4 C04",
+   technique='Rocq proof: history theorem over honest-browser runs of the model (jar round-trip + statelessness of the authenticated branch); in-Coq differential correspondence',
+   note="symbolic cookies (HMAC/AES idealised), token verification facts are inputs (oracle cross-checked in C02), provider answers and randomness are inputs of a step; " + COMMON_NOTE),
+ "C06": dict(
+   text="C06_step: a gated request is forwarded only if the effective e-mail (the refreshed token's when the step refreshed, else the session's) has exactly one '@' with a listed domain and, when roles are configured, the token's well-typed groups/roles arrays contain a listed value; a login is accepted only for an allowed e-mail taken from the verified token. C06_allowed_domain: isAllowedDomain's byte-level characterisation for all strings.",
+   design_ref="DESIGN.md section 4 C06",
+   technique='Rocq proof: per-step theorem + byte-level string lemma; in-Coq differential correspondence (look-alike e-mails, every claim shape, refresh changing identity)',
+   note="symbolic cookies (HMAC/AES idealised), token verification facts are inputs (oracle cross-checked in C02), provider answers and randomness are inputs of a step; " + COMMON_NOTE),
+ "C07": dict(
+   text="C07 (Properties/C07.v): chunk splitting/joining round trip for all lists; what store_token writes reads back as the token for every chunk count; jar round trip (save, apply Set-Cookie with replace/delete, load) for contiguous jars including deletion of stale chunk cookies; history theorem over honest-browser runs. Correspondence: refresh chains overwriting tokens of 12 sizes (big to small to big), logout, re-login; monitor: what the next request reads back equals what the provider's answer made the previous step write.",
+   design_ref="DESIGN.md section 4 C07",
+   technique='Rocq proof: Rocq proof: list lemmas, jar invariant, history induction; in-Coq differential correspondence',
+   note="symbolic cookies (HMAC/AES idealised), token verification facts are inputs (oracle cross-checked in C02), provider answers and randomness are inputs of a step; " + COMMON_NOTE),
+ "C08": dict(
+   text='C08_step: when the stored token is expired or within grace and a refresh token is stored, exactly one refresh grant with that token is made; a good answer (accepted token, e-mail) stores new ID token and new-or-old refresh token and forwards under the new identity subject to C06; any failure forwards nothing, answers 401 (JSON) or a login redirect, and an invalid_grant removes the stored refresh token.',
+   design_ref="DESIGN.md section 4 C08",
+   technique='Rocq proof: per-step theorem over serve (uses the VerifyToken lemmas); in-Coq differential correspondence over minted session shapes x provider behaviours',
+   note="symbolic cookies (HMAC/AES idealised), token verification facts are inputs (oracle cross-checked in C02), provider answers and randomness are inputs of a step; " + COMMON_NOTE),
+ "C09": dict(
+   text='PARTIAL w.r.t. real cryptography (HMAC unforgeability and AES secrecy are assumptions of the symbolic cookie model). Proved: in the symbolic model a cookie is accepted as content only if sealed under the deployment key for that exact name (C09_tamper), undecodable cookies do not influence the response (C09_undecodable_ignored), and with encryption on no secret field is derivable without the key (C09_opaque); whether the running codec encrypts is MEASURED on every run. Correspondence/monitor: every Set-Cookie of every flow goes through a key-less decoder looking for planted secrets; bit flips, truncations, swaps between names and sessions are replayed on the model.',
+   design_ref="DESIGN.md section 4 C09",
+   technique='Rocq proof: symbolic (Dolev-Yao) proof + measured-parameter reflection; key-less decoder monitor; in-Coq differential correspondence',
+   note="symbolic cookies (HMAC/AES idealised), token verification facts are inputs (oracle cross-checked in C02), provider answers and randomness are inputs of a step; " + COMMON_NOTE),
+ "C10": dict(
+   text="C10_step: every identity header the downstream sees on a forwarded gated request equals the value derived from the effective token/e-mail (templated headers: the template oracle's result) and no client-supplied value survives under an identity name.",
+   design_ref="DESIGN.md section 4 C10",
+   technique='Rocq proof: per-step non-interference theorem; in-Coq differential correspondence with client-supplied marker values under every identity name',
+   note="symbolic cookies (HMAC/AES idealised), token verification facts are inputs (oracle cross-checked in C02), provider answers and randomness are inputs of a step; " + COMMON_NOTE),
+ "C11": dict(
+   text='C11_step + C11_ends: the logout response replaces every cookie the middleware would read by an empty one and redirects to end-session (token hint, post-logout URI) or the post-logout URI; along every honest-browser history, after logout no gated request is forwarded and no refresh grant is attempted until a callback establishes a session.',
+   design_ref="DESIGN.md section 4 C11",
+   technique='Rocq proof: per-step theorem + history theorem (uses the jar round trip for clear); in-Coq differential correspondence with chunked sessions',
+   note="symbolic cookies (HMAC/AES idealised), token verification facts are inputs (oracle cross-checked in C02), provider answers and randomness are inputs of a step; " + COMMON_NOTE),
+ "C15": dict(
+   text="C15_step: every 3xx of the model points to the discovered authorization/end-session endpoint, the configured post-logout URI or a path p with same_origin_path p; C15_local_path_same_origin: the sanitiser implies the browser-level classification for ALL byte strings. net/http.Redirect's path cleaning is an oracle (checked on every case).",
+   design_ref="DESIGN.md section 4 C15",
+   technique='Rocq proof: per-step theorem + byte-level string lemma; in-Coq classification of every observed Location',
+   note="symbolic cookies (HMAC/AES idealised), token verification facts are inputs (oracle cross-checked in C02), provider answers and randomness are inputs of a step; " + COMMON_NOTE),
+ "C16": dict(
+   text="C16_escape_safe / C16_unescape_escape: html_escape output contains no markup byte and round-trips, for all byte strings; C16_step: model bodies are plain, escaped HTML or JSON with status >= 400. Tie: html_escape is compared byte for byte with Go's escaping and with the body sendErrorResponse actually produces; every world response is scanned for request-derived markup.",
+   design_ref="DESIGN.md section 4 C16",
+   technique='Rocq proof: Rocq string lemmas; differential correspondence of the escaping; raw-body monitor',
+   note="symbolic cookies (HMAC/AES idealised), token verification facts are inputs (oracle cross-checked in C02), provider answers and randomness are inputs of a step; " + COMMON_NOTE),
+ "C17": dict(
+   text="C17_step: no 5xx except the callback's provider-failure answers, no panic, and a gated request with an unusable main cookie gets a login redirect whose Set-Cookies replace main/access/refresh cookies (PARTIAL: Go-level panic freedom beyond the modelled cases rests on the malformed stream under recover()). Healing is checked on every history by a complete login from the resulting jar.",
+   design_ref="DESIGN.md section 4 C17",
+   technique='Rocq proof: per-step theorem over serve; in-Coq differential correspondence (junk/truncated/flipped/foreign cookies under every name, aged sessions, URIs to 16 kB)',
+   note="symbolic cookies (HMAC/AES idealised), token verification facts are inputs (oracle cross-checked in C02), provider answers and randomness are inputs of a step; " + COMMON_NOTE),
+ "C18": dict(
+   text="C18: Set-Cookie line length table for EVERY chunk payload length 0..maxCookieSize measured from the real store and checked <= 4096 by computation, combined with the chunking bound theorem; main-cookie sweep to the codec's refusal point; attributes of every raw Set-Cookie line of every world step checked by the harness (flag), model emits none.",
+   design_ref="DESIGN.md section 4 C18",
+   technique='Rocq proof: exhaustive measured table + vm_compute reflection + chunk bound lemma; raw-line monitor on world histories',
+   note="symbolic cookies (HMAC/AES idealised), token verification facts are inputs (oracle cross-checked in C02), provider answers and randomness are inputs of a step; " + COMMON_NOTE),
+ "C14": dict(
+   text="Theorems (Properties/C14.v) about the model of VerifyToken/RevokeToken: an accept implies acceptance by a from-scratch verification at that instant (cache invariant: entries are cached at most until the token's own expiry and were accepted when cached), failed verifications cache nothing, a revocation takes effect on the very next verification and lasts as long as the token could be accepted. Correspondence: histories of verify/revoke/wait over token sets including tokens sharing the signature segment or payload of a valid one; verdict and cache-entry presence compared after every step; the monitor is applied to the implementation.",
+   design_ref="DESIGN.md section 4 C14",
+   technique="Rocq proof: cache invariant preserved by every step, induction over histories; in-Coq differential correspondence",
+   note="long waits simulated by shifting cache expiry times; " + COMMON_NOTE),
  "C12": dict(
    text="Theorems (Properties/C12.v) prove, for the executable model of cache.go and for every capacity and every finite "
         "history of Set/Get/Delete/Cleanup of any length, that every lookup returns only the latest stored, undeleted, "
@@ -75,6 +145,9 @@ CHECKS = {
 
 NOT_APPLICABLE = []
 
+# checks whose theorem files are not in the tree yet (enabled as they land)
+DISABLED = set(p for p in CHECKS if p not in ('C02','C05','C12','C13','C19','C20') and not os.path.exists(os.path.join(V, 'coq/theories/Properties/%s.v' % p)))
+
 def main():
     m = {
       "version": 1,
@@ -88,13 +161,15 @@ def main():
         "add_only": True,
       },
       "engines": [{"name": "coq-model+correspondence", "path": "coq/ harness/ bin/",
-                   "serves_properties": sorted(CHECKS),
+                   "serves_properties": sorted(p for p in CHECKS if p not in DISABLED),
                    "kind_free_text": "Gallina model + Coq theorems; Go overlay harness; cases evaluated in Coq with vm_compute"}],
       "checks": [],
       "not_applicable": NOT_APPLICABLE,
       "notes": "See DESIGN.md. Checks are added as they are built; every listed check runs clean on the tree as committed.",
     }
     for pid in sorted(CHECKS):
+        if pid in DISABLED:
+            continue
         c = CHECKS[pid]
         m["checks"].append({
           "property_id": pid,
